@@ -177,6 +177,13 @@ class MoveWalk(sgr.Walk):
             if isinstance(a, tuple) and a and a[0] == "agg" and a[2] == "Err":
                 return ("agg", list(a[1]), "Err")
             raise Giveup("from_residual of %r" % (a,))
+        if name in ("err", "ok") and "Result" in decl and len(args) == 1:
+            # r.err() / r.ok(): the outcome as an Option of the side asked for
+            a = args[0]
+            if isinstance(a, tuple) and a and a[0] == "agg" and a[2] in ("Ok", "Err"):
+                hit = (a[2] == "Err") == (name == "err")
+                return ("agg", list(a[1]), "Some") if hit else ("agg", [], "None")
+            raise Giveup("%s() of %r" % (name, a))
         if name in ("is_ok", "is_err") and "Result" in decl and args:
             a = args[0]
             if isinstance(a, tuple) and a and a[0] == "ref":
